@@ -90,6 +90,8 @@ def make_form(form, ds=None):
             return np.array(idx, dtype=np.int64)
         if how == 'np32':
             return np.array(idx, dtype=np.int32)
+        if how == 'npu64':
+            return np.array(idx, dtype=np.uint64 if all(i >= 0 for i in idx) else np.int64)
         raise ValueError(how)
     if k == 'mask':
         how = form.get('as', 'np')
@@ -269,6 +271,11 @@ def build(node, env=None, path='r'):
         return done(ds.prefetch(node['workers'], node['buffer'], catch_filter_exception=cfe))
     def make_rng():
         # 'gen' = numpy Generator (default_rng), otherwise the legacy RandomState
+        if getattr(env, 'share_rng', False):
+            # every random stage of the pipeline draws from ONE generator object (rng=my_rng passed everywhere)
+            if getattr(env, 'the_rng', None) is None:
+                env.the_rng = np.random.default_rng(7) if node.get('rng') == 'gen' else np.random.RandomState(7)
+            return env.the_rng
         return np.random.default_rng(node['seed']) if node.get('rng') == 'gen' else np.random.RandomState(node['seed'])
     if op == 'reshuffle':
         return done(ds.shuffle(True, rng=make_rng()))
